@@ -22,21 +22,25 @@ RULE = ("valid streams of every method and the small .drc files of testdata (bit
         'one stream with 2..3 attributes decoders and valence-traversal streams with located context counts')
 THEOREM_BACKED = ('DracoProps.C18: alloc_bounded: every event of the allocation log of decodeGeometrySeq on bs is <= '
                   '4259840 + 2048 * (bs.length + declared) for accepted and rejected streams (sequential decoders of every '
-                  'bitstream version); alloc_bounded_seq_stream; alloc_bounded_with (dispatcher with arbitrary body '
-                  'decoders that keep the allocation invariant); alloc_bounded_undeclared; symbol_tables_bounded (tables of'
-                  ' RAnsSymbolDecoder::Create for any bytes, as the function symbolAllocs of the bytes, not part of the '
-                  'log); num_symbols_guard; metadata_reader_is_suffix. DracoProps.C18Kd: kd_alloc_bounded (kd-tree body: '
-                  'every event within the linear bound or one of the four kd_tree_decoder members, bounded by '
-                  '128D^2+772D+24, D = 1275*length), kd_alloc_bounded_total, kd_alloc_linear_bound_false (the known finding'
-                  ' as a theorem). DracoProps.C18Eb: eb_connectivity_alloc_invariant (Edgebreaker connectivity decoder: '
-                  'linear, no exception), guard_* (one lemma per C++ guard), eb_alloc_bounded, alloc_classified (the '
-                  'COMPLETE decoder: every event within the linear bound, or kdX, or one of the four Edgebreaker sites '
-                  'ebX), decode_consumes_prefix')
-CORRESPONDENCE_ONLY = ('not proved: that the four Edgebreaker sites ebX (mesh_traversal_sequencer.point_ids, '
-                       'attribute.indices_map, attribute.Reset, integer_decoder.portable_attribute) are within the linear bound,'
-                       " and the bound on the peak of live bytes — both are measured on the implementation only; the model's "
-                       'allocation log is an idealisation of the C++ allocation sites (it is tied by the declared counts and by '
-                       'status / geometry equality, not byte for byte)')
+                  'bitstream version); alloc_bounded_seq_stream; alloc_bounded_with; alloc_bounded_undeclared; '
+                  'symbol_tables_bounded (tables of RAnsSymbolDecoder::Create for any bytes, as the function symbolAllocs '
+                  'of the bytes, not part of the log); num_symbols_guard; metadata_reader_is_suffix. DracoProps.C18Kd: '
+                  'kd_alloc_bounded (kd-tree body, every bitstream version: every event within the linear bound or one of '
+                  'the four kd_tree_decoder members, bounded by 128D^2+772D+24, D = 1275*length), kd_alloc_bounded_total, '
+                  'kd_alloc_linear_bound_false (the known finding as a theorem); legacy (< 2.3) body on its own: '
+                  'kd_alloc_bounded_legacy(_log), kd_alloc_linear_bound_false_legacy, kd_legacy_consumes_prefix. '
+                  'DracoProps.C18Eb: eb_connectivity_alloc_invariant (Edgebreaker connectivity decoder: linear, no '
+                  'exception), guard_* (one lemma per C++ guard), guard_vertex_table / guard_sequence_length / '
+                  'base_view_vertices / ebX_sites_per_vertex_linear (the table-sized sites of a PER-VERTEX attribute '
+                  'decoder are within the linear bound), eb_alloc_bounded, alloc_classified (the COMPLETE decoder: every '
+                  'event within the linear bound, or kdX, or one of the four Edgebreaker sites ebX), decode_consumes_prefix')
+CORRESPONDENCE_ONLY = ('not proved: that the Edgebreaker sites ebX (mesh_traversal_sequencer.point_ids, attribute.indices_map, '
+                       'attribute.Reset, integer_decoder.portable_attribute) are within the linear bound for PER-CORNER '
+                       'attribute decoders and for the points of meshes with attribute seams (needs corner-table consistency, an'
+                       ' unproved invariant of the symbol loop; alloc_classified only classifies them), and the bound on the '
+                       "peak of live bytes — both are measured on the implementation only; the model's allocation log is an "
+                       'idealisation of the C++ allocation sites (it is tied by the declared counts and by status / geometry '
+                       'equality, not byte for byte)')
 EXPLANATION = ('proof of the single-request bound on the decoder model: sequential decoders in full, kd-tree and '
                'Edgebreaker bodies classified (linear bound or a named exceptional site); measured on the real decoders '
                'for every method by interposing operator new')
